@@ -109,7 +109,12 @@ where
     {
         crate::verif::tick::tick("repair.attempt");
         if crate::verif::fail::hit("repair.attempt.nonconvergent") {
-            return Err(non_convergent_error(max_flips, &stats, &diagnostics, config));
+            return Err(non_convergent_error(
+                max_flips,
+                &stats,
+                &diagnostics,
+                config,
+            ));
         }
     }
     let mut queues = RepairQueues::new();
@@ -2438,7 +2443,12 @@ where
     {
         crate::verif::tick::tick("repair.attempt");
         if crate::verif::fail::hit("repair.attempt.nonconvergent") {
-            return Err(non_convergent_error(max_flips, &stats, &diagnostics, config));
+            return Err(non_convergent_error(
+                max_flips,
+                &stats,
+                &diagnostics,
+                config,
+            ));
         }
     }
     let mut queue: VecDeque<(FacetHandle, u64)> = VecDeque::new();
@@ -2578,7 +2588,12 @@ where
                 .into());
             }
             if crate::verif::fail::hit("repair.budget") {
-                return Err(non_convergent_error(max_flips, &stats, &diagnostics, config));
+                return Err(non_convergent_error(
+                    max_flips,
+                    &stats,
+                    &diagnostics,
+                    config,
+                ));
             }
         }
 
